@@ -44,7 +44,13 @@ ASSUMPTIONS = ['ConfigObj parsing is not modelled: the model receives the tree o
                'ast-based parse_priors is not modelled (only the prior class look-up is)',
                'constructor bodies are not modelled: calls are recorded on entry; pypolychord/dyPolyChord are import '
                'stubs so that the two optional optimizers are discoverable',
-               'the CLI comparison uses scratch pickle opacities (no line lists), rel 1e-12']
+               'the CLI comparison uses scratch pickle opacities (no line lists), rel 1e-12',
+               'source tie of detect_and_return_klass / build_new_mixed_class (Props/C15Src.lean, oracle detectExt of '
+               'Proofs/C15SrcDetect.lean): importlib loads the named file or raises; inspect.getmembers(module, inspect.isclass) lists '
+               'the classes of the module sorted by name (section base classes the file imported may appear anywhere in between); '
+               'issubclass(c, base) for a class of the file = it derives from the base of that section, a base class derives only from '
+               'itself; type(name, bases, namespace) makes the class with exactly these bases in this order and raises TypeError for a '
+               'repeated base (other MRO conflicts are not modelled); hasattr(x, "__len__") holds for lists and tuples']
 
 # source tie (harness/translate.py, dialect 'dyn'): the value typing and the factory functions, regenerated on every run into
 # lean/TaurexModel/Gen/SrcC15.lean and proved equal to the functions of TaurexModel/Factory.lean in lean/Props/C15Src.lean
@@ -90,6 +96,10 @@ SRC_SPECS = [
     dict(module=_P, cls='ParameterParser', func='generate_model', lean='generate_model', dialect='dyn',
          calls={'self.generate_' + x: 'generate_' + x
                 for x in ('chemistry_profile', 'pressure_profile', 'temperature_profile', 'planet', 'star')}),
+    # the two functions `determine_klass` reaches through the oracle, translated themselves: the selection logic around the
+    # importlib / `type()` machinery (which stays the oracle's: Proofs/C15SrcDetect.lean)
+    dict(module=_F, func='detect_and_return_klass', lean='detect_and_return_klass', dialect='dyn'),
+    dict(module='taurex/mixin/core.py', func='build_new_mixed_class', lean='build_new_mixed_class', dialect='dyn'),
 ]
 
 GEN = None
